@@ -9,7 +9,8 @@ LEMMAS = {}        # name -> Lemma
 
 class LoopSpec:
     def __init__(self, kind, inv=(), post=None, decreases=None, index=None, var=None, unroll=None,
-                 modifies_extra=(), cut=()):
+                 modifies_extra=(), cut=(), assume=()):
+        self.assume = list(assume)  # [(fact, reason)]: facts taken on trust at the loop head; reported as assumptions, never counted
         self.cut = list(cut)        # assertions proved at the end of every iteration, then assumed (proof hints)
         self.kind = kind            # 'for' | 'while'
         self.inv = list(inv)
